@@ -21,6 +21,13 @@ EXTRACT = os.path.join(BIN, "extract")
 GOENV = dict(os.environ, GOFLAGS="-mod=mod", GOPROXY="off", GOSUMDB="off", GOTOOLCHAIN="local",
              CGO_ENABLED=os.environ.get("CGO_ENABLED", "0"))
 
+# statement coverage of /repo under the engines (developer aid, tools/coverage.sh): VERIF_COVER=<dir>
+COVERDIR = os.environ.get("VERIF_COVER", "")
+if COVERDIR:
+    os.makedirs(COVERDIR, exist_ok=True)
+    os.environ["GOCOVERDIR"] = COVERDIR
+    HARNESS = os.path.join(BIN, "harness_cov")
+
 ALLOWED_AXIOMS = {"propext", "Classical.choice", "Quot.sound"}
 
 TRUSTED_BASE = [
@@ -100,7 +107,8 @@ def build_harness():
                 open(os.path.join(hdir, "go.sum"), "w").write(want)
         except OSError:
             pass
-        p = run(["go", "build", "-tags", "verif", "-o", HARNESS, "."], cwd=hdir, env=GOENV)
+        cover = ["-cover", "-coverpkg=.," + ",".join("github.com/enbility/ship-go/" + x for x in ("ship", "hub", "ws", "mdns", "cert", "api", "util", "model"))] if COVERDIR else []
+        p = run(["go", "build"] + cover + ["-tags", "verif", "-o", HARNESS, "."], cwd=hdir, env=GOENV)
         return p
 
 
